@@ -887,14 +887,18 @@ def run(ctx):
     # 1. TLC: Design |= Reference exhaustively in the three modes, and emission of the slices to replay,
     #    all concurrently (in wrap mode MaxArgs bounds the wrapper's own parameters)
     fast = bool(os.environ.get('VERIF_C11_FAST'))   # development knob (mutation experiments): tiny exhaustive runs
+    reduced = bool(os.environ.get('VERIF_C11_REDUCED'))   # thorough on a loaded machine: 4/2 instead of 4/3
+    if reduced:
+        ctx.notes.append('VERIF_C11_REDUCED set: thorough tier with index exhaustive MaxParams=4 MaxArgs=2 and '
+                         'without the 3/3 emission')
     if fast:
         ctx.notes.append('VERIF_C11_FAST set: exhaustive TLC runs reduced; not a full check')
     plan = [('index', 2, 1, 4, 1000), ('render', 2, 0, 2, 100), ('wrap', 1, 1, 2, 100)] if fast else \
            [('index', 3, 2, 12, 200000), ('render', 3, 0, 2, 3000), ('wrap', 2, 1, 4, 5000)] if quick else \
-           [('index', 4, 3, 14, 3000000), ('render', 4, 0, 2, 30000), ('wrap', 3, 2, 6, 100000)]
+           [('index', 4, 2 if reduced else 3, 14, 1000000), ('render', 4, 0, 2, 30000), ('wrap', 3, 2, 6, 100000)]
     emits = [('index', 3, 2, 131, 6, 1500), ('render', 3, 0, 7, 1, 300), ('wrap', 2, 1, 17, 1, 300)] if quick else \
-            [('index', 4, 2, 29, 8, 25000), ('index', 3, 3, 61, 8, 20000), ('render', 4, 0, 3, 2, 3000),
-             ('wrap', 3, 2, 7, 6, 3000)]
+            [('index', 4, 2, 29, 8, 25000)] + ([] if reduced else [('index', 3, 3, 61, 8, 20000)]) + \
+            [('render', 4, 0, 3, 2, 3000), ('wrap', 3, 2, 7, 6, 3000)]
     jobs, roles = [], []
     for mode, maxp, maxa, workers, floor in plan:
         jobs.append(('Design|=Reference exhaustive mode=%s MaxParams=%d MaxArgs=%d' % (mode, maxp, maxa),
@@ -917,7 +921,7 @@ def run(ctx):
         jobs.append(('Design|=Reference simulation mode=index MaxParams=6 MaxArgs=5',
                      write_cfg(ctx, 'sim_index.cfg', 'index', 6, 5), 4,
                      dict(simulate='num=6000', depth=24, seed=ctx.seed + 1)))
-        roles.append(('sim', 'index', 20000))
+        roles.append(('sim', 'index', 1000))
     ctx.log('TLC: %d runs (exhaustive %s; emission %s)' % (len(jobs), [p[:3] for p in plan], [e[:5] for e in emits]))
     results = tlc_batch(ctx, jobs)
     emitted = [[] for _ in emits]
